@@ -348,6 +348,19 @@ inline std::string exec(World& w, const Op& o, Kinds& ks) {
       }
       ret = r ? "true" : "false";
     });
+  } else if (o.op == "setprefix") {
+    // a sized view pointing into the document's own string storage (first o.i bytes of the source string)
+    JsonString src;
+    withTarget(w, o.sb, o.si, o.sp, ks, [&](auto&& S) { src = S.template as<JsonString>(); });
+    if (!src.c_str() || (size_t)o.i > src.size()) throw std::runtime_error("setprefix: source is not a long enough string");
+    withTarget(w, o.tb, o.ti, o.tp, ks, [&](auto&& T) {
+      bool r;
+      unsigned how = ks.next(3);
+      if (how == 0) r = T.set(std::string_view(src.c_str(), (size_t)o.i));
+      else if (how == 1) r = T.set(JsonString(src.c_str(), (size_t)o.i, JsonString::Copied));
+      else r = T.add(std::string_view(src.c_str(), (size_t)o.i)), T.remove(T.size() - 1), r = T.set(JsonString(src.c_str(), (size_t)o.i, JsonString::Copied));
+      ret = r ? "true" : "false";
+    });
   } else if (o.op == "docset") {
     JsonVariantConst src;
     withTarget(w, o.sb, o.si, o.sp, ks, [&](auto&& S) { src = S.template as<JsonVariantConst>(); });
